@@ -408,11 +408,8 @@ func invoke(input OmegaInput) (output OmegaOutput) {
 	// m* = m
 	tmp := input.Addition.IntegratedPVMMap[n]
 	tmp.Memory = *tempHost.Interpreter.Memory
-	if c.GetReasonType() == HOST_CALL {
-		tmp.PC = pcPrime + 1 + ProgramCounter(skip(int(pcPrime), input.Addition.Program.Bitmasks))
-	} else {
-		tmp.PC = pcPrime
-	}
+	// on a host-call exit the engine already returns the counter behind the ecalli instruction
+	tmp.PC = pcPrime
 	input.Addition.IntegratedPVMMap[n] = tmp
 
 	switch c.GetReasonType() {
